@@ -9,16 +9,16 @@ set_option linter.unusedVariables false
 install it as slot 0.  The file such a picture is written to is byte for byte the file of the picture `toPage0 p f0 fk`: the same
 cells moved to page 0, with ONE font in slot 0 — the glyphs of the font in slot k under the name of the font in slot 0 (the SAUCE
 record names slot 0).  Nothing the writers look at depends on the page number (`as_u8`, the run lengths of the IDF coder — Rust's
-`PartialEq` of `TextAttribute` ignores the page —, the 8-bit test), PROVIDED both fonts are 8x16: the writers test
-`get_font_dimensions()`, i.e. slot 0 (findings `adf_font_height_of_slot0` / `idf_font_height_of_slot0`).  The round trip then is
-`adf_font_roundtrip` / `idf_font_roundtrip` of the page-0 picture.
+`PartialEq` of `TextAttribute` ignores the page —, the 8-bit test, and — since the two repairs `fix: ArtWorx writer tests the
+font height of slot 0 …` / `fix: iCE Draw writer …` — the 8x16 test, which now looks at the font that is embedded; slot 0 only
+lends its NAME to the SAUCE record).  The round trip then is `adf_font_roundtrip` / `idf_font_roundtrip` of the page-0 picture.
 -/
 namespace IcyVerif.FontBox
 open IcyVerif.Font IcyVerif.BinFormats IcyVerif.XbCompress IcyVerif.Gen
 
-/-- tie: the 16 source sites of the slot / page indirection (which font the writers embed, which slot the ADF / IDF height test
-    reads, which slot the loaders fill, one IcyDraw chunk per slot) are pinned by `tools/gens/fontslot.py` on every run -/
-example : IcyVerif.Gen.FontSlot.pinnedSites.length = 16 ∧ IcyVerif.Gen.FontSlot.testedSlot = 0 ∧
+/-- tie: the 16 source sites of the slot / page indirection (which font the writers embed, that the ADF / IDF size test reads
+    THAT font, which slot the loaders fill, one IcyDraw chunk per slot) are pinned by `tools/gens/fontslot.py` on every run -/
+example : IcyVerif.Gen.FontSlot.pinnedSites.length = 16 ∧ IcyVerif.Gen.FontSlot.testsEmbeddedFont = 1 ∧
     IcyVerif.Gen.FontSlot.loadedSlot = 0 := by decide
 
 /-- the cell on font page 0 -/
@@ -122,13 +122,14 @@ theorem writeSauce_toPage0 (k : SauceKind) (p : Pic) (f0 fk : BinFormats.Font) (
     (date body : List Nat) : writeSauce k (toPage0 p f0 fk) date body = writeSauce k p date body := by
   unfold writeSauce
   have h1 : lookupFont (toPage0 p f0 fk).fonts 0 = some ⟨f0.name, fk.height, fk.data⟩ := rfl
-  have h2 : sauceFields k (toPage0 p f0 fk) = sauceFields k p := by cases k <;> rfl
-  rw [h0, h1, h2]
+  have h2 : bufInfo (toPage0 p f0 fk) f0.name = bufInfo p f0.name := rfl
+  have h3 : (toPage0 p f0 fk).sauce = p.sauce := rfl
+  rw [h0, h1, h3]
+  simp only [h2]
 
-/-- ADF: the file of a picture on page k is the file of its page-0 picture (both fonts 8x16) -/
+/-- ADF: the file of a picture on page k is the file of its page-0 picture (whatever the two fonts are) -/
 theorem adfSave_toPage0 (sauce : Bool) (date : List Nat) (p : Pic) (k : Nat) (f0 fk : BinFormats.Font)
-    (hu : analyzeFontUsage p.rows.flatten = [k]) (h0 : lookupFont p.fonts 0 = some f0) (hk : lookupFont p.fonts k = some fk)
-    (h016 : f0.height = 16) (hk16 : fk.height = 16) :
+    (hu : analyzeFontUsage p.rows.flatten = [k]) (h0 : lookupFont p.fonts 0 = some f0) (hk : lookupFont p.fonts k = some fk) :
     adfSave sauce date p = adfSave sauce date (toPage0 p f0 fk) := by
   have hu' := usage_zeroRows p.rows k hu
   have e1 : (toPage0 p f0 fk).rows = zeroRows p.rows := rfl
@@ -137,13 +138,12 @@ theorem adfSave_toPage0 (sauce : Bool) (date : List Nat) (p : Pic) (k : Nat) (f0
   have e4 : (toPage0 p f0 fk).pal = p.pal := rfl
   have e5 : lookupFont (toPage0 p f0 fk).fonts 0 = some ⟨f0.name, fk.height, fk.data⟩ := rfl
   unfold adfSave
-  simp only [e1, e2, e3, e4, hu, hu', List.length_singleton, List.headD_cons, h0, hk, e5, h016, hk16, fits8_zero, adf_cells_zero,
+  simp only [e1, e2, e3, e4, hu, hu', List.length_singleton, List.headD_cons, hk, e5, fits8_zero, adf_cells_zero,
     writeSauce_toPage0 _ p f0 fk h0]
 
 /-- IDF: the same -/
 theorem idfSave_toPage0 (compress sauce : Bool) (date : List Nat) (p : Pic) (k : Nat) (f0 fk : BinFormats.Font)
-    (hu : analyzeFontUsage p.rows.flatten = [k]) (h0 : lookupFont p.fonts 0 = some f0) (hk : lookupFont p.fonts k = some fk)
-    (h016 : f0.height = 16) (hk16 : fk.height = 16) :
+    (hu : analyzeFontUsage p.rows.flatten = [k]) (h0 : lookupFont p.fonts 0 = some f0) (hk : lookupFont p.fonts k = some fk) :
     idfSave compress sauce date p = idfSave compress sauce date (toPage0 p f0 fk) := by
   have hu' := usage_zeroRows p.rows k hu
   have e1 : (toPage0 p f0 fk).rows = zeroRows p.rows := rfl
@@ -153,16 +153,18 @@ theorem idfSave_toPage0 (compress sauce : Bool) (date : List Nat) (p : Pic) (k :
   have e5 : lookupFont (toPage0 p f0 fk).fonts 0 = some ⟨f0.name, fk.height, fk.data⟩ := rfl
   have e6 : (toPage0 p f0 fk).h = p.h := rfl
   unfold idfSave
-  simp only [e1, e2, e3, e4, e6, hu, hu', List.length_singleton, List.headD_cons, h0, hk, e5, h016, hk16, idfRows_zero,
+  simp only [e1, e2, e3, e4, e6, hu, hu', List.length_singleton, List.headD_cons, hk, e5, idfRows_zero,
     writeSauce_toPage0 _ p f0 fk h0]
 
-/-- the domain of the page-k theorems: `boxOk` with the cells on page `k`, an 8x16 font in slot `k` AND an 8x16 font in
-    slot 0 (what the writers test) -/
+/-- the domain of the page-k theorems: `boxOk` with the cells on page `k` and an 8x16 font in slot `k`; slot 0 holds SOME font
+    (every `Buffer::new` has one; `write_sauce_info` takes the record's font name from it), of any size.  (Merge note: like `boxOk` / C05's `Representable` it now starts with `metaOk p.sauce` —
+    the picture carries the buffer's own SAUCE data since the C05 work package; `none`, the case the definition covered
+    before, satisfies it.) -/
 def boxOkPage (f : Fmt) (k : Nat) (p : Pic) : Bool :=
-  wellFormed p && p.ice == .ice && allCells p (attrCell true) && pal16 p.pal && analyzeFontUsage p.rows.flatten == [k] &&
+  metaOk p.sauce && wellFormed p && p.ice == .ice && allCells p (attrCell true) && pal16 p.pal && analyzeFontUsage p.rows.flatten == [k] &&
   (match lookupFont p.fonts 0 with
    | none => false
-   | some f0 => f0.height == 16) &&
+   | some _ => true) &&
   (match lookupFont p.fonts k with
    | none => false
    | some fk => fk.height == 16 && fk.data.length == 4096) &&
@@ -197,7 +199,7 @@ theorem boxOkPage_reduce (f : Fmt) (hf : f = .adf ∨ f = .idf) (k : Nat) (p : P
       boxOk f (toPage0 p f0 fk) = true ∧ ∀ o date, save f o date p = save f o date (toPage0 p f0 fk) := by
   unfold boxOkPage at h
   simp only [Bool.and_eq_true, beq_iff_eq] at h
-  obtain ⟨⟨⟨⟨⟨⟨⟨h1, h2⟩, h3⟩, h4⟩, h5⟩, h6⟩, h7⟩, h8⟩ := h
+  obtain ⟨⟨⟨⟨⟨⟨⟨⟨hm, h1⟩, h2⟩, h3⟩, h4⟩, h5⟩, h6⟩, h7⟩, h8⟩ := h
   cases h0 : lookupFont p.fonts 0 with
   | none => rw [h0] at h6; cases h6
   | some f0 =>
@@ -217,13 +219,14 @@ theorem boxOkPage_reduce (f : Fmt) (hf : f = .adf ∨ f = .idf) (k : Nat) (p : P
         have a4 : (toPage0 p f0 fk).pal = p.pal := rfl
         have a7 : (toPage0 p f0 fk).w = p.w := rfl
         have a8 : (toPage0 p f0 fk).h = p.h := rfl
-        rw [a1, a3, a5, a6, a2, a4, a7, a8, h2, h4]
+        have a9 : (toPage0 p f0 fk).sauce = p.sauce := rfl
+        rw [a1, a3, a5, a6, a2, a4, a7, a8, a9, hm, h2, h4]
         simp only [h7.1, h7.2, beq_self_eq_true, Bool.and_self, Bool.true_and]
         exact h8
       · intro o date
         rcases hf with rfl | rfl
-        · exact adfSave_toPage0 o.sauce date p k f0 fk h5 h0 hk h6 h7.1
-        · exact idfSave_toPage0 o.compress o.sauce date p k f0 fk h5 h0 hk h6 h7.1
+        · exact adfSave_toPage0 o.sauce date p k f0 fk h5 h0 hk
+        · exact idfSave_toPage0 o.compress o.sauce date p k f0 fk h5 h0 hk
 
 /-- ADF / IDF, cells on page `k`: the writer accepts the picture and the loader installs the font of SLOT `k` as slot 0 -/
 theorem page_font_roundtrip (f : Fmt) (hf : f = .adf ∨ f = .idf) (o : Opts) (date : List Nat) (k : Nat) (p : Pic)
